@@ -33,6 +33,11 @@ def boundary (s : String) : Boundary :=
   | "wrap" => .wrap
   | _ => .other
 
+def pyArg (j : Json) : Except String PyArg :=
+  match j with
+  | Json.arr _ => do pure (.seq (← J.list J.int j))
+  | _ => do pure (.scalar (← J.int j))
+
 def handle (j : Json) : Except String Json := do
   let op ← J.fStr j "op"
   match op with
@@ -113,6 +118,36 @@ def handle (j : Json) : Except String Json := do
                            groupbadpix := ← J.fBool j "groupbadpix" }
     pure (resJ (fun (r : List Bool × Bool) => Json.arr #[ofBools r.1, Json.bool r.2])
       (djsRejectFull Float.sqrt o g shape data model outmask inmask s))
+  | "skyi" =>
+    let shape ← J.fNats j "shape"
+    let inv ← floats j "invvar"
+    let om ← J.fOpt (J.list J.int) j "ormask"
+    let ngrow ← J.fInt j "ngrow"
+    let nrows := shape.getD 0 0
+    let npix := shape.getD 1 0
+    let rows {β : Type} (l : List β) : List (List β) := (List.range nrows).map fun r => (l.drop (r * npix)).take npix
+    pure (resJ (fun (r : List (List Float)) => ofFloats r.flatten) (skymaskImage shape (rows inv) (om.map rows) ngrow))
+  | "rejm" =>
+    let data ← floats j "data"
+    let shape ← J.fNats j "shape"
+    let model ← J.fOpt (J.list J.float) j "model"
+    let outmask ← J.fOpt bools j "outmask"
+    let inmask ← J.fOpt bools j "inmask"
+    let s ← floats j "s"
+    let o : Opts Float := {
+      useSigma := ← J.fBool j "useSigma"
+      lower := ← J.fOpt J.float j "lower"
+      upper := ← J.fOpt J.float j "upper"
+      maxdev := ← J.fOpt J.float j "maxdev"
+      hasIn := inmask.isSome
+      sticky := ← J.fBool j "sticky"
+      grow := ← J.fNat j "grow" }
+    let g : MaxrejOpts := { maxrej := ← pyArg (← J.fld j "maxrej"),
+                            groupdim := ← J.fOpt pyArg j "groupdim",
+                            groupsize := ← J.fOpt pyArg j "groupsize",
+                            groupbadpix := ← J.fBool j "groupbadpix" }
+    pure (resJ (fun (r : List Bool × Bool) => Json.arr #[ofBools r.1, Json.bool r.2])
+      (djsRejectMaxrej Float.sqrt (maxrejBody g) o g shape data model outmask inmask s))
   | "med2" =>
     let a ← floats j "a"
     let n0 ← J.fNat j "n0"
